@@ -33,20 +33,22 @@ type C17Plugin struct {
 }
 
 type C17W struct {
-	TregMs   int         `json:"treg_ms"`
-	TreqMs   int         `json:"treq_ms"`
-	Plugins  []C17Plugin `json:"plugins"`
-	FS       bool        `json:"fs,omitempty"` // the real-filesystem configuration sweep case (no simulation)
-	Umask    int         `json:"umask,omitempty"`
-	Depth    int         `json:"depth,omitempty"`
-	NoListen bool        `json:"no_listen,omitempty"`
+	TregMs  int         `json:"treg_ms"`
+	TreqMs  int         `json:"treq_ms"`
+	Plugins []C17Plugin `json:"plugins"`
+	// DisableFirst: the option disabling external connections is given before the socket path option
+	DisableFirst bool `json:"disable_first,omitempty"`
+	FS           bool `json:"fs,omitempty"` // the real-filesystem configuration sweep case (no simulation)
+	Umask        int  `json:"umask,omitempty"`
+	Depth        int  `json:"depth,omitempty"`
+	NoListen     bool `json:"no_listen,omitempty"`
 }
 
 var c17BadIdx = []string{"", "0", "000", "1a", "a1", "-1", " 1", "1 ", "१२", "１２", "+1", "0x", "1.", "٣٤"}
 
 func c17Gen(rng *rand.Rand, conf string, idx int) any {
 	if conf == "fs" {
-		return &C17W{FS: true, Umask: []int{0, 0o022, 0o027, 0o077, 0o002, 0o007}[idx%6], Depth: 1 + idx/6%3, NoListen: idx/18%2 == 1}
+		return &C17W{FS: true, Umask: []int{0, 0o022, 0o027, 0o077, 0o002, 0o007}[idx%6], Depth: 1 + idx/6%3, NoListen: idx/18%3 >= 1, DisableFirst: idx/18%3 == 2}
 	}
 	w := &C17W{TregMs: pick(rng, []int{300, 500, 1000}), TreqMs: pick(rng, []int{200, 400})}
 	n := 1 + rng.Intn(5)
@@ -326,7 +328,9 @@ func c17FS(w *C17W) *Result {
 	syncFn := func(ctx context.Context, cb nri.SyncCB) error { _, err := cb(ctx, nil, nil); return err }
 	updFn := func(ctx context.Context, u []*api.ContainerUpdate) ([]*api.ContainerUpdate, error) { return nil, nil }
 	opts := []nri.Option{nri.WithSocketPath(sock), nri.WithPluginPath(filepath.Join(base, "no-plugins")), nri.WithPluginConfigPath(filepath.Join(base, "no-conf"))}
-	if w.NoListen {
+	if w.NoListen && w.DisableFirst {
+		opts = append([]nri.Option{nri.WithDisabledExternalConnections()}, opts...)
+	} else if w.NoListen {
 		opts = append(opts, nri.WithDisabledExternalConnections())
 	}
 	r, err := nri.New("fsrt", "1", syncFn, updFn, opts...)
@@ -403,10 +407,10 @@ func init() {
 	register(&Property{
 		ID: "C17", Gen: c17Gen, New: func() any { return &C17W{} }, Run: c17Run, Shrink: c17Shrink,
 		Confs: func(tier string) []Conf {
-			return []Conf{{Name: "fs", Grid: 36}, {Name: "random", Weight: 1}}
+			return []Conf{{Name: "fs", Grid: 54}, {Name: "random", Weight: 1}}
 		},
 		Components: comp,
 		Rule: "random: 1-5 scripted plugin ends drawn from {valid, empty name, malformed index (14 strings incl. multi-byte digits), never registers, registers T_reg+60..260ms late / early (first position), never answers Configure, Configure error, mask with invalid bits (1<<13, sign bit, random), valid non-empty mask} followed by a valid one, T_reg in {300,500,1000} ms and T_req in {200,400} ms of simulated time; " +
-			"fs (36 enumerated real-filesystem cases, not simulation): umask x 1-3 missing directory levels x external connections enabled/disabled; non-trivial = at least one bad plugin, or an fs case; distinct = distinct event-log hash",
+			"fs (54 enumerated real-filesystem cases, not simulation): umask x 1-3 missing directory levels x external connections enabled / disabled (option given after or before the socket path option); non-trivial = at least one bad plugin, or an fs case; distinct = distinct event-log hash",
 	})
 }
